@@ -49,8 +49,9 @@ Definition row_agree (bound : Q) (a b : list (nat * Q)) : bool :=
 
 (* model rows (column, 3-vector) against the implementation's three matrices
    given row-wise and column-sorted; the bound of a row is
-   tol * max(1, largest |model entry| of that row) *)
-Definition rows_agree (tol : Q) (mrows : list (list (nat * V3 Q)))
+   tol * max(floor, largest |model entry| of that row); floor = 1 / (length
+   scale of the mesh): entries of a gradient operator scale like 1/length *)
+Definition rows_agree (tol floor : Q) (mrows : list (list (nat * V3 Q)))
            (irows : list (list (list (nat * Q)))) : list (nat * nat) :=
   (* returns the failing (axis, row) pairs *)
   flat_map (fun a =>
@@ -59,7 +60,7 @@ Definition rows_agree (tol : Q) (mrows : list (list (nat * V3 Q)))
       (mapi (fun i (mr : list (nat * V3 Q)) =>
                let mrow := sort_cols (map (fun c => (fst c, comp a (snd c))) mr) in
                let sc := qabs_max (map snd mrow) in
-               let bound := Qred (tol * (if Qle_bool 1 sc then sc else 1)) in
+               let bound := Qred (tol * (if Qle_bool floor sc then sc else floor)) in
                (i, row_agree bound mrow (nth i ir [])))
             mrows))
     [0; 1; 2]%nat
@@ -75,15 +76,15 @@ Definition model_grad_rows (o : opts) (m : mesh Q) (evol : list Q)
   | Some rows => Some (grad_rows QOps (o_moment o) rows)
   end.
 
-Definition corr_matrices (tol : Q) (o : opts) (m : mesh Q) (evol : list Q)
+Definition corr_matrices (tol floor : Q) (o : opts) (m : mesh Q) (evol : list Q)
            (impl : list (list (list (int * int * int)))) : option (list (nat * nat)) :=
   match model_grad_rows o m evol with
   | None => None
-  | Some mr => Some (rows_agree tol mr (map (map drow) impl))
+  | Some mr => Some (rows_agree tol floor mr (map (map drow) impl))
   end.
 
 (* convenience function output: n x 3 x nfeat *)
-Definition conv_agree (tol : Q) (o : opts) (m : mesh Q) (evol : list Q) (nfeat : nat)
+Definition conv_agree (tol floor : Q) (o : opts) (m : mesh Q) (evol : list Q) (nfeat : nat)
            (data : list (list Q)) (impl_i : list (list (list (int * int))))
   : option (list nat) :=
   let impl := map (map (map (fun p => dq (fst p) (snd p)))) impl_i in
@@ -91,7 +92,7 @@ Definition conv_agree (tol : Q) (o : opts) (m : mesh Q) (evol : list Q) (nfeat :
   | None => None
   | Some g =>
       let sc := qabs_max (concat (concat g)) in
-      let bound := Qred (tol * (if Qle_bool 1 sc then sc else 1)) in
+      let bound := Qred (tol * (if Qle_bool floor sc then sc else floor)) in
       Some (flat_map (fun p : nat * bool => if snd p then [] else [fst p])
         (mapi (fun i gi =>
            (i, let ii := nth i impl [] in
@@ -104,14 +105,14 @@ Definition conv_agree (tol : Q) (o : opts) (m : mesh Q) (evol : list Q) (nfeat :
   end.
 
 (* the same with the order1_only option (second-order elements) *)
-Definition corr_matrices_x (tol : Q) (order1 : bool) (k1 : nat) (o : opts) (m : mesh Q)
+Definition corr_matrices_x (tol floor : Q) (order1 : bool) (k1 : nat) (o : opts) (m : mesh Q)
            (evol : list Q) (impl : list (list (list (int * int * int)))) :=
-  corr_matrices tol o (mesh_view order1 k1 o m) evol impl.
+  corr_matrices tol floor o (mesh_view order1 k1 o m) evol impl.
 
-Definition conv_agree_x (tol : Q) (order1 : bool) (k1 : nat) (o : opts) (m : mesh Q)
+Definition conv_agree_x (tol floor : Q) (order1 : bool) (k1 : nat) (o : opts) (m : mesh Q)
            (evol : list Q) (nfeat : nat) (data : list (list Q))
            (impl_i : list (list (list (int * int)))) :=
-  conv_agree tol o (mesh_view order1 k1 o m) evol nfeat
+  conv_agree tol floor o (mesh_view order1 k1 o m) evol nfeat
     (if order1 then match o_mode o with
                     | Nodal => select (order1_mask k1 m) data
                     | Elemental => data
